@@ -1,10 +1,424 @@
 (* C06 - Arithmetic, comparison and numeric builtins are exact.
-   This file contains only statements, closed by [exact], and Print Assumptions. *)
-From Verif Require Import Base.Order Num.Decimal Num.CmpProofs.
-From Coq Require Import List NArith ZArith.
+   This file contains only statements, closed by [exact], and Print Assumptions.
+
+   Models (implementation-faithful, see the headers of the files):
+     Num/Decimal.v  apd decimals at precision 34 as used by adt.numOp (dadd dsub dmul dquo dcmp ...)
+     Num/IntDiv.v   intDivOp: div mod quo rem
+     Num/NumLit.v   literal.ParseNum + NumInfo.decimal, byte level
+   Specification layer: dval : dec -> Q (the rational a decimal denotes), ival, and
+   Num/NumLitSpec.v (the value a literal denotes).  Notation: p10 e = 10^e in Q. *)
+From Verif Require Import Base.Order Num.Decimal Num.IntDiv Num.Eval Num.NumLit Num.NumLitSpec
+     Num.DVal Num.DigitsProofs Num.RoundProofs Num.ArithProofs Num.QuoProofs Num.DcmpProofs
+     Num.CmpProofs Num.IntDivProofs Num.NumLitProofs Num.Examples.
+From Coq Require Import List NArith ZArith QArith Qabs.
 Import ListNotations.
+Local Open Scope Q_scope.
+
+(* ------------------------------------------------------------------ *)
+(* digits and rounding (apd NumDigits, Rounder.Round half-up)          *)
+
+Theorem C06_digits_characterised : forall n,
+  (n < pow10 (digits n))%N /\ (digits n = 1 \/ pow10 (digits n - 1) <= n)%N /\ (1 <= digits n)%N.
+Proof. exact digits_spec. Qed.
+Print Assumptions C06_digits_characterised.
+
+(* Round to p digits: identity when the coefficient fits *)
+Theorem C06_round_identity_when_fits : forall p d, (digits (coeff d) <= p)%N -> round p d = d.
+Proof. exact round_small. Qed.
+Print Assumptions C06_round_identity_when_fits.
+
+Theorem C06_round_digits : forall p d, (1 <= p)%N -> (digits (coeff (round p d)) <= p)%N.
+Proof. exact round_digits. Qed.
+Print Assumptions C06_round_digits.
+
+(* otherwise: within half a unit of the last kept digit, a multiple of that unit, ties away
+   from zero - i.e. THE half-up rounding of the value *)
+Theorem C06_round_error : forall p d, (p < digits (coeff d))%N ->
+  2 * Qabs (dval (round p d) - dval d) <= ulp p d.
+Proof. exact round_error. Qed.
+Print Assumptions C06_round_error.
+
+Theorem C06_round_multiple_of_ulp : forall p d, (p < digits (coeff d))%N ->
+  exists k : Z, dval (round p d) == inject_Z k * ulp p d.
+Proof. exact round_multiple. Qed.
+Print Assumptions C06_round_multiple_of_ulp.
+
+Theorem C06_round_ties_away_from_zero : forall p d, (p < digits (coeff d))%N ->
+  2 * Qabs (dval (round p d) - dval d) == ulp p d -> Qabs (dval d) < Qabs (dval (round p d)).
+Proof. exact round_tie_away. Qed.
+Print Assumptions C06_round_ties_away_from_zero.
+
+(* the Inexact condition bit is exactly "the value changed" *)
+Theorem C06_round_inexact_flag : forall p d,
+  snd (round_flag p d) = false <-> dval (round p d) == dval d.
+Proof. exact round_exact_iff. Qed.
+Print Assumptions C06_round_inexact_flag.
+
+(* ------------------------------------------------------------------ *)
+(* + - * : exact result, then Round at precision 34                    *)
+
+Theorem C06_add_exact_value : forall x y, dval (add_exact x y) == dval x + dval y.
+Proof. exact add_exact_val. Qed.
+Print Assumptions C06_add_exact_value.
+
+Theorem C06_sub_exact_value : forall x y, dval (sub_exact x y) == dval x - dval y.
+Proof. exact sub_exact_val. Qed.
+Print Assumptions C06_sub_exact_value.
+
+Theorem C06_mul_exact_value : forall x y, dval (mul_exact x y) == dval x * dval y.
+Proof. exact mul_exact_val. Qed.
+Print Assumptions C06_mul_exact_value.
+
+Theorem C06_neg_value : forall x, dval (dneg x) == - dval x.
+Proof. exact dneg_val. Qed.
+Print Assumptions C06_neg_value.
+
+(* add: correctly rounded to 34 significant digits (when it does not fit) *)
+Theorem C06_add_correctly_rounded : forall x y,
+  (34 < digits (coeff (add_exact x y)))%N ->
+  let u := ulp 34 (add_exact x y) in
+  2 * Qabs (dval (dadd x y) - (dval x + dval y)) <= u /\
+  (exists k : Z, dval (dadd x y) == inject_Z k * u) /\
+  (2 * Qabs (dval (dadd x y) - (dval x + dval y)) == u -> Qabs (dval x + dval y) < Qabs (dval (dadd x y))).
+Proof. exact (rop_correctly_rounded add_exact Qplus add_exact_val). Qed.
+Print Assumptions C06_add_correctly_rounded.
+
+Theorem C06_sub_correctly_rounded : forall x y,
+  (34 < digits (coeff (sub_exact x y)))%N ->
+  let u := ulp 34 (sub_exact x y) in
+  2 * Qabs (dval (dsub x y) - (dval x - dval y)) <= u /\
+  (exists k : Z, dval (dsub x y) == inject_Z k * u) /\
+  (2 * Qabs (dval (dsub x y) - (dval x - dval y)) == u -> Qabs (dval x - dval y) < Qabs (dval (dsub x y))).
+Proof. exact (rop_correctly_rounded sub_exact Qminus sub_exact_val). Qed.
+Print Assumptions C06_sub_correctly_rounded.
+
+Theorem C06_mul_correctly_rounded : forall x y,
+  (34 < digits (coeff (mul_exact x y)))%N ->
+  let u := ulp 34 (mul_exact x y) in
+  2 * Qabs (dval (dmul x y) - (dval x * dval y)) <= u /\
+  (exists k : Z, dval (dmul x y) == inject_Z k * u) /\
+  (2 * Qabs (dval (dmul x y) - (dval x * dval y)) == u -> Qabs (dval x * dval y) < Qabs (dval (dmul x y))).
+Proof. exact (rop_correctly_rounded mul_exact Qmult mul_exact_val). Qed.
+Print Assumptions C06_mul_correctly_rounded.
+
+(* representation-independent: relative error at most 5 * 10^-34, for all operands *)
+Theorem C06_add_relative_error : forall x y,
+  2 * Qabs (dval (dadd x y) - (dval x + dval y)) * p10 33 <= Qabs (dval x + dval y).
+Proof. exact (rop_relative_error add_exact Qplus add_exact_val). Qed.
+Print Assumptions C06_add_relative_error.
+
+Theorem C06_sub_relative_error : forall x y,
+  2 * Qabs (dval (dsub x y) - (dval x - dval y)) * p10 33 <= Qabs (dval x - dval y).
+Proof. exact (rop_relative_error sub_exact Qminus sub_exact_val). Qed.
+Print Assumptions C06_sub_relative_error.
+
+Theorem C06_mul_relative_error : forall x y,
+  2 * Qabs (dval (dmul x y) - (dval x * dval y)) * p10 33 <= Qabs (dval x * dval y).
+Proof. exact (rop_relative_error mul_exact Qmult mul_exact_val). Qed.
+Print Assumptions C06_mul_relative_error.
+
+(* exact whenever the exact result has at most 34 digits *)
+Theorem C06_add_exact_when_fits : forall x y,
+  (digits (coeff (add_exact x y)) <= 34)%N -> dval (dadd x y) == dval x + dval y.
+Proof. exact (rop_exact_when_fits add_exact Qplus add_exact_val). Qed.
+Print Assumptions C06_add_exact_when_fits.
+
+Theorem C06_sub_exact_when_fits : forall x y,
+  (digits (coeff (sub_exact x y)) <= 34)%N -> dval (dsub x y) == dval x - dval y.
+Proof. exact (rop_exact_when_fits sub_exact Qminus sub_exact_val). Qed.
+Print Assumptions C06_sub_exact_when_fits.
+
+Theorem C06_mul_exact_when_fits : forall x y,
+  (digits (coeff (mul_exact x y)) <= 34)%N -> dval (dmul x y) == dval x * dval y.
+Proof. exact (rop_exact_when_fits mul_exact Qmult mul_exact_val). Qed.
+Print Assumptions C06_mul_exact_when_fits.
+
+(* and exactly then (the Inexact bit of the rounding step) *)
+Theorem C06_add_exact_iff : forall x y,
+  snd (round_flag 34 (add_exact x y)) = false <-> dval (dadd x y) == dval x + dval y.
+Proof. exact (rop_exact_iff add_exact Qplus add_exact_val). Qed.
+Print Assumptions C06_add_exact_iff.
+
+Theorem C06_mul_exact_iff : forall x y,
+  snd (round_flag 34 (mul_exact x y)) = false <-> dval (dmul x y) == dval x * dval y.
+Proof. exact (rop_exact_iff mul_exact Qmult mul_exact_val). Qed.
+Print Assumptions C06_mul_exact_iff.
+
+(* integers below 10^34 in magnitude: exact, and still an integer representation *)
+Theorem C06_int_add_exact_when : forall x y,
+  exp x = 0%Z -> exp y = 0%Z -> (Z.abs (sc x + sc y) < 10 ^ 34)%Z ->
+  exp (dadd x y) = 0%Z /\ sc (dadd x y) = (sc x + sc y)%Z.
+Proof. exact int_add_exact_when. Qed.
+Print Assumptions C06_int_add_exact_when.
+
+Theorem C06_int_sub_exact_when : forall x y,
+  exp x = 0%Z -> exp y = 0%Z -> (Z.abs (sc x - sc y) < 10 ^ 34)%Z ->
+  exp (dsub x y) = 0%Z /\ sc (dsub x y) = (sc x - sc y)%Z.
+Proof. exact int_sub_exact_when. Qed.
+Print Assumptions C06_int_sub_exact_when.
+
+Theorem C06_int_mul_exact_when : forall x y,
+  exp x = 0%Z -> exp y = 0%Z -> (Z.abs (sc x * sc y) < 10 ^ 34)%Z ->
+  exp (dmul x y) = 0%Z /\ sc (dmul x y) = (sc x * sc y)%Z.
+Proof. exact int_mul_exact_when. Qed.
+Print Assumptions C06_int_mul_exact_when.
+
+(* THE PROPERTY AS WORDED IS FALSE OF THE FAITHFUL MODEL (finding F1):
+   two int operands whose int-kinded sum is not their sum (10^36 + 1) *)
+Theorem C06_int_add_exact_refuted :
+  exists a b r, num_op OpAdd (int_lit a) (int_lit b) = Ok r /\ nk r = KInt /\
+                ~ dval (nd r) == dval (nd (int_lit a)) + dval (nd (int_lit b)).
+Proof. exact num_op_add_refuted. Qed.
+Print Assumptions C06_int_add_exact_refuted.
+
+Theorem C06_int_mul_exact_refuted :
+  exists a b r, num_op OpMul (int_lit a) (int_lit b) = Ok r /\ nk r = KInt /\
+                ~ dval (nd r) == dval (nd (int_lit a)) * dval (nd (int_lit b)).
+Proof. exact num_op_mul_refuted. Qed.
+Print Assumptions C06_int_mul_exact_refuted.
+
+Example C06_f1_witness_value :
+  num_op OpAdd (i_ (10 ^ 36)) (i_ 1) = Ok (mkNum KInt (mkDec false (10 ^ 33) 3)).
+Proof. exact ex_f1. Qed.
+Print Assumptions C06_f1_witness_value.
+
+Example C06_add_fits_example : num_op OpAdd (i_ (10 ^ 33)) (i_ 1) = Ok (i_ (10 ^ 33 + 1)).
+Proof. exact ex_add_fits. Qed.
+Print Assumptions C06_add_fits_example.
+
+Example C06_tie_and_rollover_examples :
+  dadd (mkDec false (10 ^ 34 + 5) 0) (mkDec false 0 0) = mkDec false (10 ^ 33 + 1) 1 /\
+  dmul (mkDec false (10 ^ 35 - 5) 0) (mkDec false 1 0) = mkDec false (10 ^ 33) 2.
+Proof. exact (conj ex_tie ex_rollover). Qed.
+Print Assumptions C06_tie_and_rollover_examples.
+
+(* ------------------------------------------------------------------ *)
+(* kinds and errors of numOp                                           *)
+
+Theorem C06_result_kind : forall op x y r,
+  num_op op x y = Ok r ->
+  nk r = match op with
+         | OpQuo => KFloat
+         | _ => match nk x, nk y with KInt, KInt => KInt | _, _ => KFloat end
+         end.
+Proof. exact num_op_kind. Qed.
+Print Assumptions C06_result_kind.
+
+Theorem C06_arith_error_iff_zero_divisor : forall op x y,
+  num_op op x y = Err <-> (op = OpQuo /\ coeff (nd y) = 0%N).
+Proof. exact num_op_total. Qed.
+Print Assumptions C06_arith_error_iff_zero_divisor.
+
+(* ------------------------------------------------------------------ *)
+(* / : correctly rounded to 34 significant digits                      *)
+
+(* q = x / y: |q*y - x| <= 1/2 * 10^E * |y| where 10^E is at most the unit of the 34th
+   significant digit of q *)
+Theorem C06_quo_correctly_rounded : forall x y,
+  coeff y <> 0%N ->
+  exists E : Z,
+    2 * Qabs (dval (dquo x y) * dval y - dval x) <= p10 E * Qabs (dval y) /\
+    (coeff x <> 0%N -> p10 (E + 33) <= Qabs (dval (dquo x y))) /\
+    (coeff x = 0%N -> dval (dquo x y) == 0).
+Proof. exact dquo_correctly_rounded. Qed.
+Print Assumptions C06_quo_correctly_rounded.
+
+Theorem C06_quo_sign : forall x y, coeff x <> 0%N -> coeff y <> 0%N ->
+  neg (dquo x y) = xorb (neg x) (neg y).
+Proof. exact dquo_sign. Qed.
+Print Assumptions C06_quo_sign.
+
+Theorem C06_reduce_keeping_floats_value : forall x, dval (reduce_keeping_floats x) == dval x.
+Proof. exact reduce_keeping_floats_val. Qed.
+Print Assumptions C06_reduce_keeping_floats_value.
+
+Theorem C06_quo_zero_divisor_error : forall x y, coeff (nd y) = 0%N -> num_op OpQuo x y = Err.
+Proof. exact num_quo_zero_divisor. Qed.
+Print Assumptions C06_quo_zero_divisor_error.
+
+Example C06_quo_examples :
+  num_op OpQuo (i_ 1) (i_ 3) = Ok (f_ 3333333333333333333333333333333333 (-34)) /\
+  num_op OpQuo (i_ 2) (i_ 3) = Ok (f_ 6666666666666666666666666666666667 (-34)) /\
+  num_op OpQuo (i_ 6) (i_ 2) = Ok (f_ 30 (-1)) /\
+  num_op OpQuo (i_ 1) (i_ 0) = Err.
+Proof. exact (conj ex_third (conj ex_two_thirds (conj ex_six_two ex_div_zero))). Qed.
+Print Assumptions C06_quo_examples.
+
+(* ------------------------------------------------------------------ *)
+(* comparison                                                          *)
+
+(* Decimal.Cmp is the order of the denoted rationals *)
+Theorem C06_cmp_spec : forall d x, dcmp d x = (dval d ?= dval x).
+Proof. exact dcmp_spec. Qed.
+Print Assumptions C06_cmp_spec.
+
+(* hence a total preorder on representations (total order on values) *)
+Theorem C06_cmp_total_order : total_pre dcmp.
+Proof. exact dcmp_total_pre. Qed.
+Print Assumptions C06_cmp_total_order.
+
+Theorem C06_cmp_eq_iff_same_value : forall d x, dcmp d x = Eq <-> dval d == dval x.
+Proof. exact dcmp_eq_iff. Qed.
+Print Assumptions C06_cmp_eq_iff_same_value.
+
+(* the six operators on two numbers, int or float alike *)
+Theorem C06_comparison_operators : forall x y,
+  (num_cmp CLt x y = true <-> dval (nd x) < dval (nd y)) /\
+  (num_cmp CLe x y = true <-> dval (nd x) <= dval (nd y)) /\
+  (num_cmp CEq x y = true <-> dval (nd x) == dval (nd y)) /\
+  (num_cmp CNe x y = true <-> ~ dval (nd x) == dval (nd y)) /\
+  (num_cmp CGe x y = true <-> dval (nd y) <= dval (nd x)) /\
+  (num_cmp CGt x y = true <-> dval (nd y) < dval (nd x)).
+Proof. exact num_cmp_spec. Qed.
+Print Assumptions C06_comparison_operators.
+
+Theorem C06_comparison_operators_consistent : forall r,
+  cmp_to_bool CNe r = negb (cmp_to_bool CEq r) /\
+  cmp_to_bool CGe r = negb (cmp_to_bool CLt r) /\
+  cmp_to_bool CLe r = negb (cmp_to_bool CGt r) /\
+  cmp_to_bool CLe r = (cmp_to_bool CLt r || cmp_to_bool CEq r)%bool /\
+  (cmp_to_bool CLt r = true <-> r = Lt) /\
+  (cmp_to_bool CEq r = true <-> r = Eq) /\
+  (cmp_to_bool CGt r = true <-> r = Gt).
+Proof. exact cmp_ops_consistent. Qed.
+Print Assumptions C06_comparison_operators_consistent.
 
 (* strings.Compare / bytes.Compare: a total order on byte strings *)
 Theorem C06_bytes_cmp_total_order : total_cmp bytes_cmp.
 Proof. exact bytes_cmp_total. Qed.
 Print Assumptions C06_bytes_cmp_total_order.
+
+Example C06_cmp_examples :
+  num_cmp CEq (i_ 1) (f_ 1000 (-3)) = true /\ num_cmp CLt (f_ 999 (-3)) (i_ 1) = true /\
+  num_cmp CGt (i_ (10 ^ 40)) (f_ 9 39) = true /\ num_cmp CLe (ni_ 1) (f_ 0 5) = true.
+Proof. exact ex_cmp. Qed.
+Print Assumptions C06_cmp_examples.
+
+(* ------------------------------------------------------------------ *)
+(* div mod quo rem (ival d = the integer an int-kinded decimal denotes) *)
+
+Theorem C06_int_value : forall d, (0 <= exp d)%Z -> dval d == inject_Z (ival d).
+Proof. exact ival_dval. Qed.
+Print Assumptions C06_int_value.
+
+Theorem C06_div_mod_euclid : forall a b,
+  nk a = KInt -> nk b = KInt -> (0 <= exp (nd a))%Z -> (0 <= exp (nd b))%Z -> ival (nd b) <> 0%Z ->
+  exists q m, int_div_op FDiv a b = Ok q /\ int_div_op FMod a b = Ok m /\
+    nk q = KInt /\ nk m = KInt /\
+    ival (nd a) = (ival (nd b) * ival (nd q) + ival (nd m))%Z /\
+    (0 <= ival (nd m) < Z.abs (ival (nd b)))%Z.
+Proof. exact div_mod_euclid. Qed.
+Print Assumptions C06_div_mod_euclid.
+
+Theorem C06_quo_rem_trunc : forall a b,
+  nk a = KInt -> nk b = KInt -> (0 <= exp (nd a))%Z -> (0 <= exp (nd b))%Z -> ival (nd b) <> 0%Z ->
+  exists q r, int_div_op FQuo a b = Ok q /\ int_div_op FRem a b = Ok r /\
+    nk q = KInt /\ nk r = KInt /\
+    ival (nd a) = (ival (nd b) * ival (nd q) + ival (nd r))%Z /\
+    (Z.abs (ival (nd r)) < Z.abs (ival (nd b)))%Z /\
+    (ival (nd r) = 0%Z \/ Z.sgn (ival (nd r)) = Z.sgn (ival (nd a))) /\
+    (Z.abs (ival (nd b) * ival (nd q)) <= Z.abs (ival (nd a)))%Z.
+Proof. exact quo_rem_trunc. Qed.
+Print Assumptions C06_quo_rem_trunc.
+
+Theorem C06_int_div_zero_error : forall f a b,
+  nk a = KInt -> nk b = KInt -> (0 <= exp (nd a))%Z -> (0 <= exp (nd b))%Z -> ival (nd b) = 0%Z ->
+  int_div_op f a b = Err.
+Proof. exact int_div_zero_error. Qed.
+Print Assumptions C06_int_div_zero_error.
+
+Theorem C06_int_div_needs_ints : forall f a b, (nk a = KFloat \/ nk b = KFloat) -> int_div_op f a b = Err.
+Proof. exact int_div_kind_error. Qed.
+Print Assumptions C06_int_div_needs_ints.
+
+(* exact at any size: the result IS big.Int's, whatever the magnitudes and representation *)
+Theorem C06_int_div_exact_any_size : forall f a b,
+  nk a = KInt -> nk b = KInt -> (0 <= exp (nd a))%Z -> (0 <= exp (nd b))%Z ->
+  (ival (nd b) = 0%Z -> int_div_op f a b = Err) /\
+  (ival (nd b) <> 0%Z ->
+     exists r, int_div_op f a b = Ok r /\ nk r = KInt /\ exp (nd r) = 0%Z /\
+               ival (nd r) = big_fn f (ival (nd a)) (ival (nd b))).
+Proof. exact int_div_op_spec. Qed.
+Print Assumptions C06_int_div_exact_any_size.
+
+(* the Euclidean pair is unique, so div/mod are the functions of the specification *)
+Theorem C06_euclid_unique : forall x y q m q' m',
+  (x = y * q + m -> 0 <= m < Z.abs y -> x = y * q' + m' -> 0 <= m' < Z.abs y -> q = q' /\ m = m')%Z.
+Proof. exact euclid_unique. Qed.
+Print Assumptions C06_euclid_unique.
+
+Example C06_div_mod_tables :
+  map (fun '(x, y) => (int_div_op FDiv x y, int_div_op FMod x y))
+      [(i_ 5, i_ 3); (ni_ 5, i_ 3); (i_ 5, ni_ 3); (ni_ 5, ni_ 3)]
+  = [(Ok (i_ 1), Ok (i_ 2)); (Ok (ni_ 2), Ok (i_ 1)); (Ok (ni_ 1), Ok (i_ 2)); (Ok (i_ 2), Ok (i_ 1))] /\
+  map (fun '(x, y) => (int_div_op FQuo x y, int_div_op FRem x y))
+      [(i_ 5, i_ 3); (ni_ 5, i_ 3); (i_ 5, ni_ 3); (ni_ 5, ni_ 3)]
+  = [(Ok (i_ 1), Ok (i_ 2)); (Ok (ni_ 1), Ok (ni_ 2)); (Ok (ni_ 1), Ok (i_ 2)); (Ok (i_ 1), Ok (ni_ 2))].
+Proof. exact (conj ex_divmod ex_quorem). Qed.
+Print Assumptions C06_div_mod_tables.
+
+Example C06_int_div_big_examples :
+  int_div_op FDiv (i_ (10 ^ 40)) (i_ 7) = Ok (i_ (10 ^ 40 / 7)) /\
+  int_div_op FDiv (mkNum KInt (mkDec false (10 ^ 33) 3)) (i_ 7) = Ok (i_ (10 ^ 36 / 7)).
+Proof. exact (conj ex_div_big ex_div_rounded). Qed.
+Print Assumptions C06_int_div_big_examples.
+
+(* ------------------------------------------------------------------ *)
+(* RoundToIntegralExact (used by multiplier literals)                  *)
+
+Theorem C06_to_integral_of_int : forall x, (0 <= exp x)%Z ->
+  to_integral_flag x = (mkDec (neg x) (coeff x * pow10 (Z.to_N (exp x))) 0, false).
+Proof. exact to_integral_nonneg_exp. Qed.
+Print Assumptions C06_to_integral_of_int.
+
+Theorem C06_to_integral_of_fraction : forall x, (exp x < 0)%Z ->
+  let e := pow10 (Z.to_N (- exp x)) in
+  let c := coeff x in
+  to_integral_flag x =
+    (mkDec (neg x) (if (2 * (c mod e) <? e)%N then (c / e)%N else (c / e + 1)%N) 0,
+     negb (c mod e =? 0)%N).
+Proof. exact to_integral_neg_exp. Qed.
+Print Assumptions C06_to_integral_of_fraction.
+
+(* ------------------------------------------------------------------ *)
+(* literals: deviations from the specified value (witnesses)           *)
+
+(* F5: 1000000000000000000000000000000000.001K = 10^36 + 1 is read as 10^36 *)
+Theorem C06_mult_literal_exact_refuted :
+  exists src i n s,
+    parse_num src = Some i /\ lit_parse src = LNum n /\ lit_exact i = Some s /\
+    nk n = KInt /\ nk s = KInt /\
+    dval (nd s) == inject_Z (10 ^ 36 + 1) /\ dval (nd n) == inject_Z (10 ^ 36).
+Proof. exact mult_literal_exact_refuted. Qed.
+Print Assumptions C06_mult_literal_exact_refuted.
+
+(* 1.3Ki: the specification truncates to 1331, ParseNum rejects *)
+Theorem C06_mult_literal_truncation_refuted :
+  exists src i,
+    lit_parse src = LErr /\ parse_num_noerr src = Some i /\
+    lit_exact i = Some (mkNum KInt (mkDec false 1331 0)).
+Proof. exact mult_literal_truncation_refuted. Qed.
+Print Assumptions C06_mult_literal_truncation_refuted.
+
+(* 1e100001 denotes 1; 1e2147483648 leaves a NaN decimal without an error *)
+Theorem C06_literal_exponent_range_refuted :
+  lit_parse f9_witness = LNum (mkNum KFloat (mkDec false 1 0)) /\
+  (exists i, parse_num f9_witness = Some i /\
+             lit_exact i = Some (mkNum KFloat (mkDec false 1 100001))) /\
+  lit_parse f9_witness_nan = LNaN KFloat.
+Proof. exact literal_exponent_range_refuted. Qed.
+Print Assumptions C06_literal_exponent_range_refuted.
+
+Example C06_literal_examples :
+  lit_parse [49; 46; 53; 71]%N = LNum (i_ 1500000000) /\
+  lit_parse [48; 120; 66; 97; 100; 95; 70; 97; 99; 101]%N = LNum (i_ 195951310) /\
+  lit_parse [48; 55; 50; 46; 52; 48]%N = LNum (f_ 7240 (-2)) /\
+  lit_parse [46; 49; 50; 51; 52; 53; 69; 43; 53]%N = LNum (f_ 12345 0).
+Proof. exact (conj ex_lit_si (conj ex_lit_hex (conj ex_lit_float ex_lit_exp))). Qed.
+Print Assumptions C06_literal_examples.
+
+Example C06_literal_error_examples :
+  map lit_parse [[49; 95; 95; 48]; [48; 120]; [49; 101]; [48; 49]; [49; 65]; []; [49; 0]]%N =
+  [LErr; LErr; LErr; LErr; LErr; LErr; LErr].
+Proof. exact ex_lit_errors. Qed.
+Print Assumptions C06_literal_error_examples.
